@@ -202,6 +202,7 @@ type stepOut struct {
 	Ok2        bool      `json:"ok2"`    // concurrent pair: success flag of the second command
 	X2         int64     `json:"x2"`     // ... identity the registry held for its connection
 	Parked     bool      `json:"parked"` // ... the first command did reach its Park-th storage call
+	Serialized bool      `json:"serialized"` // ... the second command could not proceed until the first was released
 	PropOK     bool      `json:"prop_ok"`
 	PropKey    string    `json:"prop_key,omitempty"`
 	PropMsg    string    `json:"prop_msg,omitempty"`
@@ -840,8 +841,17 @@ func runStep(w *world, s *stepSpec, before *stepOut) stepOut {
 			select {
 			case e := <-d2:
 				o.Ok2 = e == nil
-			case <-time.After(8 * time.Second):
-				o.TimedOut = true
+			case <-time.After(60 * time.Millisecond):
+				// the handler serialises its commands (a lock held across the storage call): the pair cannot interleave there;
+				// let the first command go on and wait for the second
+				o.Serialized = true
+				w.fstore.release()
+				select {
+				case e := <-d2:
+					o.Ok2 = e == nil
+				case <-time.After(8 * time.Second):
+					o.TimedOut = true
+				}
 			}
 		}
 		w.fstore.release()
@@ -964,7 +974,10 @@ loop:
 		}
 		keep = append(keep, d)
 	}
-	oa.Deliveries, ob.Deliveries = keep, keep
+	if keep == nil {
+		keep = [][]int64{}
+	}
+	o.Deliveries, oa.Deliveries, ob.Deliveries = keep, keep, keep
 	evalProperty(w, s, before, &oa)
 	evalProperty(w, s.Pair, before, &ob)
 	for _, fa := range oa.fails {
